@@ -9,6 +9,24 @@ NOTE = ("Trusted base: clang 14 front end + clang::CFG, tools/xzfacts.cc, sa/*.p
         "of the property is NOT decided (see DESIGN.md section 4).")
 
 CLAIMED = {
+ "C07": dict(
+  text="Lock discipline of the threaded decoder decided by a must-lockset dataflow on the path-sensitive product graph "
+       "(mythread_sync's loop variables are tracked, so lock regions are exact): every access to each shared field of the "
+       "frozen protected-field table happens under its mutex or under a re-verified structural exception (pre-create, post-join, "
+       "idle thread, quiescent state, owner read); documented-mutex outqueue calls; lock order M->T; every wait re-tests shared "
+       "state before unlocking; every write to a wait-predicate field is followed by a signal; exit->join->free; the "
+       "CVE-2025-31115 worker rules; pending error only after the queue drained. Found the unlocked progress_in update (fixed). "
+       "These are necessary conditions; absence of all races/deadlocks and output equality are NOT decided.",
+  technique="must-lockset dataflow over a finite-domain product graph, protected-field table, must-pass rules",
+  ref="4/C07"),
+ "C08": dict(
+  text="Same lock-discipline engines on the threaded encoder (protected fields, lock order, wait loops, signal-after-write, "
+       "join-before-free) plus must-pass rules of the main loop: Index Records appended only for Blocks that lzma_outq_read "
+       "reported finished and with exactly its sizes; FULL_FLUSH complete only with an empty queue; FINISH only after the "
+       "Index encoder finished; worker errors reported through worker_error(). Found the early thread_error reset on "
+       "re-initialisation (fixed). Schedule-independence of the output bytes is NOT decided.",
+  technique="must-lockset dataflow over a finite-domain product graph, protected-field table, must-pass rules",
+  ref="4/C08"),
  "C10": dict(
   text="Ownership discipline decided on the AST/CFG of all liblzma units: every allocator-owning member of each coder record "
        "(incl. records embedded by value) is released by the end function stored with it; freed-alias dataflow: no persistent "
